@@ -194,15 +194,11 @@ func runC13(r *Run) {
 			c.reset("teardown")
 		}
 	})
-	for _, n := range []*Node{cs.p, cs.rep, cs.r2} {
-		if err := n.Open(); err != nil {
-			r.Inconclusive("open %s: %v", n.Name, err)
-			return
-		}
-		if n == cs.p && !cs.p.WaitPrimary(5*time.Second) {
-			r.Inconclusive("no primary")
-			return
-		}
+	// the replicas join after the primary has its history: a snapshot being
+	// streamed holds read locks and would make SQLite on the primary wait (BUSY)
+	if err := cs.p.Open(); err != nil {
+		r.Inconclusive("open %s: %v", cs.p.Name, err)
+		return
 	}
 	if !cs.p.WaitPrimary(5 * time.Second) {
 		r.Inconclusive("no primary")
@@ -227,6 +223,12 @@ func runC13(r *Run) {
 		return
 	}
 	cs.ref = h.ref
+	for _, n := range []*Node{cs.rep, cs.r2} {
+		if err := n.Open(); err != nil {
+			r.Inconclusive("open %s: %v", n.Name, err)
+			return
+		}
+	}
 	follow := func(n *Node, d time.Duration, why string) bool {
 		pos := cs.pdb().Pos()
 		return r.Check(waitPos(n, cs.name, pos, d), "c13.follow", "%s did not reach the primary's position %s %s (it is at %s)", n.Name, pos, why, posOf(n, cs.name))
@@ -539,11 +541,53 @@ func (cs *c13sim) release(t *Tape) {
 		// the release reaches the primary but its answer is lost
 		cs.net.DropResponses(cs.p.ID, 1)
 	}
+	// Sometimes another connection on the replica is in a read transaction while
+	// the lock is given back: the recovery that goes with the release (journal
+	// rollback, checkpoint) has to wait for it like any writer would.
+	var reader *Conn
+	if t.Chance(1, 3) {
+		rc := cs.rep.NewConn(cs.name, cs.jmode, cs.pageSize)
+		if rc.Open() == 0 {
+			ok := rc.LockShared() == 0
+			if ok && cs.wal {
+				ok = rc.WalOpen() == 0
+				if ok {
+					_, e := rc.WalBeginRead()
+					ok = e == 0
+				}
+			}
+			if ok {
+				reader = rc
+				installInternalWriteMonitor(r, cs.rep, "c13", func(*litefs.DB) (bool, bool) { return cs.wal, true })
+				r.Count("c13.release.with-reader")
+			} else {
+				rc.Close()
+			}
+		}
+	}
 	// the unlock is a plain system call for the application: it has no way to time out
 	done := make(chan syscall.Errno, 1)
 	lf := cs.lockF
 	go func() { done <- lf.Lock(fuse.LockUnlock, uint64(litefs.LockTypeHalt), uint64(litefs.LockTypeHalt)) }()
 	var e syscall.Errno
+	if reader != nil {
+		// let the release run into the reader's locks, then end the read transaction
+		select {
+		case e = <-done:
+			done <- e
+		case <-time.After(300 * time.Millisecond):
+		}
+		if cs.wal {
+			reader.WalEndRead()
+		}
+		reader.UnlockAll()
+		reader.Close()
+		cs.rep.SetPageOpHook(nil)
+		cs.rep.K.OnCall = nil
+		if r.Failed() {
+			return
+		}
+	}
 	select {
 	case e = <-done:
 	case <-time.After(30 * time.Second):
